@@ -255,6 +255,8 @@ class FamilyBuilder:
         r, kn = self.rng, self.kn
         root = self.name("R")
         mix = self.pick_mixins()
+        if kn.get("deep_variants") and r.random() < 0.6:
+            mix = []
         rc = {"name": root, "mixins": mix, "fields": self.fields(root.lower() + "_", r.randint(0, 2))}
         cfg = self.pick_cfg(bool(mix)) or {}
         cfg.pop("forbid_extra_keys", None)
@@ -272,7 +274,7 @@ class FamilyBuilder:
         nvar = r.randint(2, 3)
         for i in range(nvar):
             parent = root
-            if variants and r.random() < 0.3:
+            if variants and (r.random() < 0.3 or (kn.get("deep_variants") and i == 1)):
                 parent = r.choice(variants)
             vn = self.name("V")
             vc = {"name": vn, "bases": [parent], "mixins": [],
@@ -335,6 +337,12 @@ class FamilyBuilder:
         nref = r.randint(1, 3)
         for i in range(nref):
             fields.append({"n": f"{name.lower()}_r{i}", "t": self.ref_type(name)})
+        if kn.get("deep_variants") and self.roots and not any(
+                t[0] == "ann" for f in fields for t in _types_in(f["t"])):
+            root = r.choice(sorted(self.roots))
+            d = {"field": "t", "sub": True, "sup": r.random() < 0.3, "tagger": None}
+            fields[0]["t"] = r.choice([["ann", ["cls", root], d], ["ann", ["cls", root], d],
+                                       ["list", ["ann", ["cls", root], d]]])
         fields += self.fields(name.lower() + "_", r.randint(0, 2), defaults_only=False)
         # required first, defaults after
         for f in fields:
@@ -518,6 +526,8 @@ def gen_value(rng, fam, t, defined, depth=0, kn=None, discr=None):
                   if discr.get("field") is None or fam.tag(v, discr)]
             if el:
                 concrete = rng.choice(el)
+                if kn and kn.get("deep_variants") and rng.random() < 0.6:
+                    concrete = max(el, key=lambda v: (len(fam.mro(v)), v))
         elif k == "cls" and kn and kn.get("sub_in_base") and rng.random() < 0.4:
             subs = fam.subclasses(cname, defined)
             if subs:
@@ -853,7 +863,9 @@ def gen_codec_op(rng, fam, kn, defined, codecs):
 
 def gen_schedule(rng, est_steps=20000):
     x = rng.random()
-    if x < 0.5:
+    if x < 0.25:
+        return {"kind": "centry", "q": rng.choice([0.3, 0.6, 1.0]), "p": rng.choice([0.0, 0.002, 0.02])}
+    if x < 0.55:
         p = rng.choice([0.002, 0.01, 0.03, 0.1, 0.3])
         return {"kind": "uniform", "p": p, "pg": rng.choice([p, p, 0.5])}
     if x < 0.85:
@@ -863,11 +875,34 @@ def gen_schedule(rng, est_steps=20000):
     return {"kind": "uniform", "p": 0.0, "pg": 0.5}
 
 
+def _types_in(t):
+    yield t
+    k = t[0]
+    if k in ("opt", "list", "dict", "ann"):
+        yield from _types_in(t[1])
+    elif k in ("tuple", "union"):
+        for x in t[1:]:
+            yield from _types_in(x)
+    elif k == "gen":
+        for x in t[2]:
+            yield from _types_in(x)
+
+
 def gen_conc(rng, fam, kn, defined, first_bias=None):
     nthreads = rng.randint(2, 4)
     classes = callable_classes(fam, defined)
     progs = []
     focus = rng.choice(classes)
+    # prefer classes whose decode goes through a tag registry when there are any
+    disc = [c for c in classes if fam.own_cfg(c).get("discriminator")
+            or any(t[0] == "ann" for f in fam.all_fields(c) for t in _types_in(f["t"]))]
+    if disc and rng.random() < 0.5:
+        focus = rng.choice(disc)
+    if rng.random() < 0.35:
+        # "N threads make the first call at once": the very same call everywhere
+        op = gen_call(rng, fam, kn, defined, cname=focus)
+        return {"k": "conc", "progs": [[dict(op)] for _ in range(nthreads)],
+                "sched": gen_schedule(rng), "sseed": rng.getrandbits(32)}
     for _ in range(nthreads):
         prog = []
         for _ in range(rng.choice([1, 1, 2, 3])):
@@ -917,8 +952,14 @@ def gen_history(rng, spec, kn, n_ops=None):
             ops.append(gen_call(rng, fam, kn, defined))
         elif what == "abort":
             op = gen_call(rng, fam, kn, defined)
-            op["abort_at"] = int(2 ** rng.uniform(0, 13))
+            retry = dict(op)
+            if rng.random() < 0.3:
+                op["abort_gen"] = rng.randint(1, 60)
+            else:
+                op["abort_at"] = int(2 ** rng.uniform(0, 13))
             ops.append(op)
+            if rng.random() < 0.7:
+                ops.append(retry)  # the same call again after the interrupted one
         elif what == "conc":
             ops.append(gen_conc(rng, fam, kn, defined))
         elif what == "codec":
